@@ -44,6 +44,7 @@ import (
 	"time"
 
 	"github.com/tmpim/casket/casketfile"
+	"github.com/tmpim/casket/verifhook"
 )
 
 // Configurable application parameters
@@ -247,6 +248,8 @@ func (i *Instance) Restart(newCasketfile Input) (*Instance, error) {
 	if err != nil {
 		return i, fmt.Errorf("starting with listener file descriptors: %v", err)
 	}
+
+	verifhook.Point("casket.restart.beforeStopOld")
 
 	// success! stop the old instance
 	err = i.Stop()
